@@ -153,6 +153,11 @@ pub fn make(spec: &JobSpec, ex: &mut Executor, out: &mut JobResult) -> Option<Bo
             let steps = decode(spec.params.get("steps")?.as_str()?)?;
             FaultJob::new(steps, ex, out).map(|j| Box::new(j) as Box<dyn Job>)
         }
+        "doc-seams" => Some(Box::new(DocSeamJob::new(spec, out))),
+        "single" if spec.params.get("scenario").and_then(|s| s.get("label")).and_then(|l| l.as_str()).map_or(false, |l| l.starts_with("C11 doc-seams ")) => {
+            let sc: Scenario = serde_json::from_value(spec.params.get("scenario")?.clone()).ok()?;
+            Some(Box::new(DocSeamJob { scenarios: vec![sc] }))
+        }
         "single" => {
             let sc: Scenario = serde_json::from_value(spec.params.get("scenario")?.clone()).ok()?;
             let mut it = sc.label.split_whitespace();
@@ -332,6 +337,11 @@ fn is_on(p: &Perms, i: usize) -> bool {
 
 /// independent of any hook: an effect seam was touched although its permission is off
 fn seam_invariants(sc: &Scenario, r: &RunResult) -> Vec<(String, String)> {
+    seam_invariants_with(sc, r, true)
+}
+
+/// `classify_lines`: tell display output from debug output by its shape (only sound for the effect templates, whose displays print bare integers)
+fn seam_invariants_with(sc: &Scenario, r: &RunResult, classify_lines: bool) -> Vec<(String, String)> {
     let mut v = vec![];
     let c = &r.counters;
     if !is_on(&sc.effective_perms(), 0) && c.unix_reads > 0 {
@@ -347,10 +357,10 @@ fn seam_invariants(sc: &Scenario, r: &RunResult) -> Vec<(String, String)> {
     let is_display_line = |l: &str| l.chars().all(|ch| ch.is_ascii_digit()) || l == "true" || l == "false";
     let digit_lines = text.lines().filter(|l| !l.is_empty() && is_display_line(l)).count();
     let other_lines = text.lines().filter(|l| !l.is_empty() && !is_display_line(l)).count();
-    if !is_on(&sc.effective_perms(), 1) && digit_lines > 0 {
+    if classify_lines && !is_on(&sc.effective_perms(), 1) && digit_lines > 0 {
         v.push(("display wrote although PRINT is forbidden".to_string(), format!("output {text:?}")));
     }
-    if !is_on(&sc.effective_perms(), 2) && other_lines > 0 {
+    if classify_lines && !is_on(&sc.effective_perms(), 2) && other_lines > 0 {
         v.push(("debug wrote although PRINT_DEBUG is forbidden".to_string(), format!("output {text:?}")));
     }
     if !is_on(&sc.effective_perms(), 1) && !is_on(&sc.effective_perms(), 2) && (c.writes > 0 || c.flushes > 0) {
@@ -591,5 +601,95 @@ impl Job for FaultJob {
             out.probe("rng_fault_runs");
         }
         out.tuples.insert(format!("{}|w{:?}|u{:?}|r{}:{}|{}", sites, sc.env.writer, sc.env.unix_plan, sc.env.rng_extreme_words, sc.env.rng_extreme_kind, got.class()));
+    }
+}
+
+// ------------------------------------------------------------------ every documented function under forbidden permissions
+
+/// Every function the book documents, called with sample arguments (its lazy result consumed),
+/// with all permissions forbidden, with each single permission forbidden, and with none set:
+/// whatever the function is, no effect seam may be touched whose permission is off, and a
+/// refusal is the outcome the host receives. This does not depend on my list of effect sites.
+struct DocSeamJob {
+    scenarios: Vec<Scenario>,
+}
+
+impl DocSeamJob {
+    fn new(spec: &JobSpec, out: &mut JobResult) -> Self {
+        let part = spec.params.get("part").and_then(|v| v.as_u64()).unwrap_or(0) as usize;
+        let parts = spec.params.get("parts").and_then(|v| v.as_u64()).unwrap_or(1) as usize;
+        let (calls, _, _) = crate::docsig::calls();
+        let mut scenarios = vec![];
+        for (ci, c) in calls.iter().enumerate() {
+            if ci % parts != part {
+                continue;
+            }
+            let text = crate::docsig::forcing_program(&c.call, &c.ret);
+            let mut assignments: Vec<(String, Perms)> = vec![("all-forbidden".into(), [Some(false); 6]), ("unset".into(), [None; 6])];
+            for i in 0..6 {
+                let mut p = [Some(true); 6];
+                p[i] = Some(false);
+                assignments.push((format!("only-{}-forbidden", PERM_NAMES[i]), p));
+            }
+            for (name, perms) in assignments {
+                // finite limits: some sample calls are endless by design (successors_until(.., some))
+                let mut sc = Scenario::standard(&text, super::c10::live_limits());
+                sc.perms = perms;
+                sc.label = format!("C11 doc-seams {} {} {}", c.label, name, c.call);
+                scenarios.push(sc);
+            }
+        }
+        out.count("doc_seam_cases", scenarios.len() as u64);
+        DocSeamJob { scenarios }
+    }
+}
+
+impl Job for DocSeamJob {
+    fn len(&self) -> usize {
+        self.scenarios.len()
+    }
+    fn scenario(&mut self, i: usize) -> Scenario {
+        self.scenarios[i].clone()
+    }
+    fn judge(&mut self, _i: usize, sc: &Scenario, r: Exec, out: &mut JobResult) {
+        let r = match r {
+            Exec::Run(r) => r,
+            Exec::CompileError(_) => {
+                out.count("doc_seam_not_compiling", 1);
+                return;
+            }
+            Exec::CompilePanic(p) => {
+                out.violate(violation(P, P, ("crash".into(), crate::oracles::crash_signature(&p), format!("compiler panicked: {p}")), sc));
+                return;
+            }
+        };
+        out.absorb_run(&r);
+        for f in o_crash(&r) {
+            out.violate(violation(P, P, f, sc));
+        }
+        for (what, detail) in seam_invariants_with(sc, &r, false) {
+            out.violate(violation(P, P, ("seam".into(), what, detail), sc));
+        }
+        for f in o_uncaught(&r) {
+            out.violate(violation(P, P, f, sc));
+        }
+        // every permission event agrees with the assignment in force
+        for e in &r.log {
+            if let Ev::Perm { id, ok } = e {
+                let allowed = PERM_NAMES.iter().position(|n| n == id).map(|i| is_on(&sc.effective_perms(), i));
+                if let Some(allowed) = allowed {
+                    if allowed != *ok {
+                        out.violate(violation(P, P, ("permission".into(), format!("permission {id} answered {ok} although the assignment says {allowed}"), sc.label.clone()), sc));
+                    }
+                }
+            }
+        }
+        let refused = r.ops.iter().any(|o| o.outcome.violation_kind().map_or(false, |k| k.starts_with("PermissionError")));
+        out.probe("doc_seam_runs");
+        if refused {
+            out.probe("doc_seam_refused");
+        }
+        let name = sc.label.split_whitespace().nth(2).unwrap_or("");
+        out.tuples.insert(format!("doc-seam|{name}|{}|{}", sc.label.split_whitespace().nth(3).unwrap_or(""), if refused { "refused" } else { "ran" }));
     }
 }
